@@ -151,7 +151,7 @@ class Prop(object):
     status = "partial"
     rule = ("synthetic single-column level tables (level 1 replaced in-process as the test suite does; 1-3 of 38 keys restricted: flags forced true/false, preset-only or custom-only indices, "
             "restricted base formats, sizes, wavelets, depths, slice parameters, quantisation-matrix values, versions) x random small codec configurations: either the REAL encoder raises "
-            "an unsatisfiable-configuration error or the REAL validator accepts the serialised stream under the same table; a rejection naming one of the recorded F8 keys is attributed "
+            "an unsatisfiable-configuration error or the REAL validator accepts the serialised stream under the same table; plus the REAL level tables: the header the encoder chooses for every row; a rejection naming one of the recorded F8 keys is attributed "
             "to that finding, any other rejection is a violation; plus the real level tables via C03/C15")
     trusted = ["C17's constraint-table model and correspondence; the key inventories are regenerated from the sources each run (string-literal occurrence: an over-approximation of 'consulted')",
                "attribution of a rejection to F8 is by the key named in ValueNotAllowedInLevel / QuantisationMatrixValueNotAllowedInLevel"]
@@ -181,6 +181,28 @@ class Prop(object):
             if out == "violation" and not self._bad:
                 self._bad = {"config": G.describe(cf), "pictures": pics,
                              "restrictions": dict((k, [list(v) if isinstance(v, tuple) else v for v in vs]) for k, vs in restr.items()), "why": detail}
+        self.real_levels(ctx)
+
+    def real_levels(self, ctx):
+        """the real level tables for the formats they admit: the sequence header the encoder chooses for every
+        (level, column, base format, coding mode) of the real table must be accepted under that level"""
+        import re
+        from props import c15
+
+        ctx.corr_names.append("REAL encoder's sequence header under the REAL level tables, for every row of the table")
+        for cf in c15.level_formats():
+            try:
+                why, n = c15.violates(cf, max_headers=1)
+            except Exception as e:  # noqa
+                why, n = "exception %s: %s" % (type(e).__name__, str(e)[:160]), 0
+            ctx.evaluations += 1
+            ctx.count("real-level:%s" % ("refused" if n == 0 and not why else ("ok" if not why else "rejected")))
+            if why:
+                m = re.search(r"The (\w+) value", why)
+                if m and m.group(1) in F8_KEYS:
+                    self._known.setdefault(m.group(1), {"real_level_format": c15.describe(cf)})
+                elif not self._bad:
+                    self._bad = {"real_level_format": c15.describe(cf), "why": "under the real level %d: %s" % (int(cf["level"]), why)}
 
     def directed_f8(self):
         """one directed replay per recorded key (minimal HQ configuration, one restricted key)"""
@@ -227,7 +249,18 @@ class Prop(object):
 
     def search(self, ctx):
         import codecgen as G
+        import re
+        from props import c15
 
+        for cf in c15.level_formats():
+            try:
+                why, n = c15.violates(cf, max_headers=1)
+            except Exception as e:  # noqa
+                why = "exception %s: %s" % (type(e).__name__, str(e)[:160])
+            if why:
+                m = re.search(r"The (\w+) value", why)
+                if not (m and m.group(1) in F8_KEYS):
+                    return {"real_level_format": c15.describe(cf), "why": "under the real level %d: %s" % (int(cf["level"]), why)}
         rng = ctx.rng("search")
         for _ in range(ctx.n(2000, 30000)):
             cf = rand_config(rng)
@@ -252,6 +285,15 @@ class Prop(object):
         fi = r.get("failing_input")
         if not fi:
             print("replay names broken obligations only:", r.get("broken_obligations"))
+            return 1
+        if "real_level_format" in fi:
+            from props import c15
+            for cf in c15.level_formats():
+                if c15.describe(cf) == fi["real_level_format"]:
+                    why, n = c15.violates(cf, max_headers=1)
+                    print("replay real level %s ->" % fi["real_level_format"]["level"], why or "property holds")
+                    return 1 if why else 0
+            print("replay: that row of the level table no longer exists")
             return 1
         cf = CodecFeatures(G.from_description(fi["config"]), level=Levels(1))
         restr = dict((k, [tuple(v) if isinstance(v, list) else v for v in vs]) for k, vs in fi["restrictions"].items())
